@@ -174,3 +174,33 @@ def is_float_div(fn, nid):
     if n is None or n['k'] != 'BinaryOperator' or n.get('op') != '/':
         return None
     return 'double' in n.get('ty', '') or 'float' in n.get('ty', '')
+
+
+def cmp_real(fn, nid, env=None):
+    """comparison over reals -> ('lt', canon(a-b)) for a<b / b>a ; ('le', ..) ; ('eq'|'ne', sign-normalised); None"""
+    n = fn.nodes.get(nid)
+    while n is not None and n['k'] in SKIP and n['ch']:
+        nid = n['ch'][0]
+        n = fn.nodes.get(nid)
+    if n is None:
+        return None
+    op = None
+    if n['k'] == 'BinaryOperator':
+        op = n.get('op')
+    elif n['k'] == 'CXXOperatorCallExpr':
+        op = n.get('oop')
+    if op not in ('<', '<=', '>', '>=', '==', '!=') or len(n['ch']) != 2:
+        return None
+    a, b = lin(fn, n['ch'][0], env), lin(fn, n['ch'][1], env)
+    if a is None or b is None:
+        return None
+    if op in ('>', '>='):
+        a, b = b, a
+        op = '<' if op == '>' else '<='
+    d = _add(a, b, -1)
+    if op in ('==', '!='):
+        items = sorted((str(k), v) for k, v in d.items() if v)
+        if items and items[0][1] < 0:
+            d = _scale(d, -1)
+        return ('eq' if op == '==' else 'ne', canon(d))
+    return ('lt' if op == '<' else 'le', canon(d))
